@@ -6,10 +6,14 @@ from ..stages import *
 from . import _placement as P
 
 THEOREMS = [
+    'C08_every_child_placed : in_domain ec er children -> grid_placement_run ec er flow children = Ok o -> '
+    'map p_index (o_items o) = map fst (in_flow_children children)',
     'C08_area_in_range : in_domain -> grid_placement_run ec er flow children = Ok o -> forall p in o_items o, '
-    '1 <= p_row_start p < p_row_end p <= tracks (o_rows o) + 1 /\\ 1 <= p_col_start p < p_col_end p <= tracks (o_cols o) + 1',
-    'C08_explicit_honoured : ... expected (c_row c) er = Some (a, b) -> p_row_start p = a + tc_neg (o_rows o) + 1 /\\ p_row_end p = b + tc_neg (o_rows o) + 1 (same for columns)',
-    'C08_auto_no_overlap : ... child of p not definite in both axes -> p_index p <> p_index q -> areas of p and q are disjoint',
+    '1 <= p_row_start p < p_row_end p <= tlen (o_rows o) + 1 /\\ 1 <= p_col_start p < p_col_end p <= tlen (o_cols o) + 1',
+    'C08_explicit_honoured : ... nth_error children (p_index p) = Some (k, c) -> expected (c_row c) er = Some (a, b) -> '
+    'p_row_start p = a + tc_neg (o_rows o) + 1 /\\ p_row_end p = b + tc_neg (o_rows o) + 1 (same for columns)',
+    'C08_auto_no_overlap : ... is_definite (c_row c) && is_definite (c_col c) = false -> p_index p <> p_index q -> ~ overlap p q',
+    'C08_placement_succeeds_with_all_clauses : in_domain ec er children -> exists o, grid_placement_run ec er flow children = Ok o /\\ (all clauses)',
 ]
 
 
